@@ -45,7 +45,6 @@ import (
 	"context"
 	"fmt"
 	"io"
-	"math"
 	"mime/multipart"
 	"net"
 	"net/url"
@@ -840,11 +839,11 @@ func (ctx *RequestContext) Next(c context.Context) {
 	}
 }
 
-// advance moves the handler index forward and stops at the largest int8: every
-// returning Next of a long chain adds one more step, which must not wrap the index
-// around to a negative value.
+// advance moves the handler index forward and stops at the end of the chain: every
+// returning Next adds one more step, which must neither wrap the index around to a
+// negative value nor carry it into the range that means "aborted" (IsAborted).
 func (ctx *RequestContext) advance() {
-	if ctx.index < math.MaxInt8 {
+	if int(ctx.index) < len(ctx.handlers) {
 		ctx.index++
 	}
 }
